@@ -404,7 +404,9 @@ JudgeNew(e) ==
      (IF ~bound THEN {D({"C18"}, "argv_not_rendering_of_command", "")} ELSE {}) \cup
      (IF crashed THEN
         (IF o.timeout /\ c.prefix # "" /\ Len(pre.nibbles) <= 3 /\ ~mustRefuse THEN {D({"C18"}, "vanity_search_did_not_terminate", "")}
-         ELSE IF mustRefuse THEN {D(props, "cli_crash_instead_of_refusal", "")} ELSE {})
+         ELSE IF mustRefuse THEN {D(props, "cli_crash_instead_of_refusal", "")}
+         ELSE IF o.timeout THEN {}                                  \* a long search (more than 3 digits): not bounded by the property
+         ELSE {D(props, "cli_crash_instead_of_result", o.stderr_head)})
       ELSE IF mustRefuse THEN
         (IF CliFailedOk(o) THEN {}
          ELSE IF printed THEN {D(IF pre.c = "reject" THEN {"C18"} ELSE props, "new_printed_instead_of_refusal", phrase)}
